@@ -49,16 +49,18 @@ Definition p2_stream_ok (s : p2stream) : bool :=
   nat_list_eqb ok got && (spent || Nat.eqb probe 1).
 
 (* nothing lost or duplicated, no live subscription torn down, the task ended exactly once after
-   every request was dropped and the command is done *)
-Definition C08_e2e_p2 (streams : list p2stream) (ends : nat) (done : bool) : bool :=
-  forallb p2_stream_ok streams && Nat.eqb ends 1 && done.
+   every request was dropped (unless a dropped one-shot made that impossible) and the command is done *)
+Definition C08_e2e_p2 (streams : list p2stream) (ends expect_ends : nat) (done : bool) : bool :=
+  forallb p2_stream_ok streams && Nat.eqb ends expect_ends && done.
 
-Definition p2case := (list p2slice * list p2stream * nat * bool)%type.
+(* expect_ends: 1, or 0 when a one-shot request was dropped unresolved (its future stays pending
+   with no waker for ever, so the task is rightly evicted before its end) *)
+Definition p2case := (list p2slice * list p2stream * (nat * nat) * bool)%type.
 
 Definition p2_verdict (c : p2case) : N :=
-  let '(sl, streams, ends, done) := c in
+  let '(sl, streams, (ends, expect_ends), done) := c in
   let v := fold_left (fun acc x => maxN acc (p2_slice_verdict x)) sl 0%N in
-  if C08_e2e_p2 streams ends done then v else 2%N.
+  if C08_e2e_p2 streams ends expect_ends done then v else 2%N.
 
 Definition p2_verdicts (cs : list p2case) : list N := map p2_verdict cs.
 
